@@ -37,3 +37,30 @@ package sstable
 //@   trusted assumed view-level contract (goal of C11)
 //@   modifies nothing
 //@   ensures it.atValid && !it.reader.del[it.atKey] ==> bstr(result) == it.reader.val[it.atKey]
+
+// ---- C11 (writer side): the bloom filter under construction is always keyed with the offset at which the block under
+// construction will be written (a filter registered under another block's offset makes Reader.Get skip a block that
+// holds the key: a false negative), the index entry of a block carries the offset and size of the bytes written, and
+// every key added to the block is added to that filter.
+//@ predicate WriterInv(w *Writer) = w != nil && w.blockManager != nil && w.blockManager.builder != nil && w.indexBuilder != nil && w.fileManager != nil && (w.bloomFilterEnabled ==> w.currentBloomFilter != nil && w.currentBloomFilter.filter != nil) && (w.currentBloomFilter != nil ==> w.bloomFilterEnabled && w.currentBloomFilter.blockOffset == w.dataOffset)
+//@ func NewBlockBloomFilterBuilder
+//@   ensures[C11] result != nil && fresh(result) && result.blockOffset == blockOffset && result.filter != nil
+//@ func NewBlockManager
+//@   ensures[C11] result != nil && fresh(result) && result.builder != nil
+//@ func NewIndexBuilder
+//@   ensures[C11] result != nil && fresh(result)
+//@ func NewFileManager
+//@   ensures[C11] err == nil ==> result0 != nil && fresh(result0)
+//@   ensures[C11] err != nil ==> result0 == nil
+//@ func NewWriterWithOptions
+//@   ensures[C11] err == nil ==> WriterInv(result0) && result0.dataOffset == 0 && result0.entriesAdded == 0
+//@ func (*Writer).flushBlock
+//@   requires WriterInv(w)
+//@   ensures[C11] WriterInv(w)
+//@   check[C11] before call (*IndexBuilder).AddIndexEntry#1: arg_entry.BlockOffset == old(w.dataOffset) && arg_entry.BlockSize == n % 4294967296
+//@ func (*Writer).AddWithSequence
+//@   requires WriterInv(w)
+//@   ensures[C11] WriterInv(w)
+//@   check[C11] before call (*BlockManager).AddWithSequence#1: w.bloomFilterEnabled ==> bloomAdds > old(bloomAdds)
+//@   ghost after call (*BlockBloomFilterBuilder).AddKey#1: bloomAdds = bloomAdds + 1
+//@ ghost global bloomAdds int
